@@ -59,6 +59,17 @@ def run(rep, tier, seed, model_ok=True, effort=1):
             spec["files"].append(fs)
             scripted = ["update", "no-tag", "update", "allow-dirty", "update"]
         spec["cfg_prefix"] = ""
+        if h == 3:
+            # corpus history: a glob entry (*.toml) covers the config file itself with a pattern for another of its lines; the config's own
+            # current_version line must still follow every update (also across an untagged one)
+            spec = rwgen.gen_project(common.rng(3, "c08-corpus"), impl, legacy=False, max_files=1, allow_mixed=False)
+            spec["vp"], spec["flags"], spec["old"], spec["date"], spec["fmt"] = "MAJOR.MINOR.PATCH", ["--patch"], "2.0.8", dt.date(2024, 3, 1), "pyproject.toml"
+            fs = rwgen.FileSpec("pixi.toml", ['pkgver = "{version}"'])
+            fs.lines = [([rwgen.Seg("text", "[workspace]")], "\n"), ([rwgen.Seg("occ", 0)], "\n")]
+            fs.group = "*.toml"
+            spec["files"] = [fs]
+            spec["cfg_prefix"] = '[project]\npkgver = "2.0.8"\n\n'
+            scripted = ["update", "no-tag", "update"]
         with rwgen.to_temp_project(project, spec, commit=True, tag=True, push=False, vcs=None) as prj:
             rwgen.write_contents(prj, spec)
             if prj.cfg_error(impl):
